@@ -26,10 +26,11 @@ import (
 )
 
 // C38 / C36 TIE-D: the real api.NewRouter over the real system controller on pgsem.
-//   C38 monitors (independent of any model): status class (never 5xx / panic), JSON error envelope on 4xx,
-//       definitely-invalid input is not accepted, ledger snapshot unchanged after any non-2xx answer.
-//   C36 monitors: amounts from the lattice posted through v1/v2 in every body form are read back digit-exact through
-//       every read API, with and without Formance-Bigint-As-String; balance filters with huge bounds select correctly.
+//
+//	C38 monitors (independent of any model): status class (never 5xx / panic), JSON error envelope on 4xx,
+//	    definitely-invalid input is not accepted, ledger snapshot unchanged after any non-2xx answer.
+//	C36 monitors: amounts from the lattice posted through v1/v2 in every body form are read back digit-exact through
+//	    every read API, with and without Formance-Bigint-As-String; balance filters with huge bounds select correctly.
 func init() { commands["httpsweep"] = cmdHTTPSweep }
 
 type sweep struct {
@@ -281,20 +282,20 @@ var sweepBadAddresses = []string{"a::b", "a:", ":a", "a b", "a%2Fb", "%zz", "é"
 var sweepInvalidJSON = []string{"", "{", "[", "nul", `{"postings":`, "\x00", `{"a":1}}`, `{'a':1}`, "<xml/>", `{"postings":[{"source":"world","destination":"bob","asset":"USD","amount":1}]`, "\xff\xfe", `{"metadata":{"k":"\ud800"}}x`}
 var sweepContentTypes = []string{"text/plain", "application/xml", "application/x-www-form-urlencoded", "", "application/json; charset=latin1", "multipart/form-data", "application/vnd.formance.ledger.api.v2.bulk+json-stream", "application/vnd.formance.ledger.api.v2.bulk+script-stream"}
 
-func (s *sweep) validTx(r *Rng) *J {
-	return jobj("postings", jarr(jobj("source", jstr("world"), "destination", jstr(Pick(r, []string{"alice", "bob", "users:1"})), "asset", jstr(Pick(r, []string{"USD", "EUR/2"})), "amount", jint(int64(1+r.Intn(50))))),
-		"metadata", jobj("k1", jstr("v1")))
+func (s *sweep) validTx(r *Rng) *AJ {
+	return ajobj("postings", ajarr(ajobj("source", ajstr("world"), "destination", ajstr(Pick(r, []string{"alice", "bob", "users:1"})), "asset", ajstr(Pick(r, []string{"USD", "EUR/2"})), "amount", jint(int64(1+r.Intn(50))))),
+		"metadata", ajobj("k1", ajstr("v1")))
 }
-func (s *sweep) validScriptTx(r *Rng, v1form bool) *J {
-	mon := jobj("asset", jstr("USD"), "amount", jint(int64(1+r.Intn(50))))
-	return jobj("script", jobj("plain", jstr("vars {\n account $dst\n monetary $m\n}\nsend $m (\n source = @world\n destination = $dst\n)"), "vars", jobj("dst", jstr("alice"), "m", mon)), "metadata", jobj("k1", jstr("v1")))
+func (s *sweep) validScriptTx(r *Rng, v1form bool) *AJ {
+	mon := ajobj("asset", ajstr("USD"), "amount", jint(int64(1+r.Intn(50))))
+	return ajobj("script", ajobj("plain", ajstr("vars {\n account $dst\n monetary $m\n}\nsend $m (\n source = @world\n destination = $dst\n)"), "vars", ajobj("dst", ajstr("alice"), "m", mon)), "metadata", ajobj("k1", ajstr("v1")))
 }
 
 type sweepRoute struct {
 	name   string
 	method string
 	path   func(s *sweep, r *Rng) string
-	body   func(s *sweep, r *Rng) *J
+	body   func(s *sweep, r *Rng) *AJ
 	write  bool
 	list   bool   // paginated list: cursor/pageSize/filter mutations apply
 	filter bool   // accepts a filter (query param / body)
@@ -306,14 +307,14 @@ type sweepRoute struct {
 func constPath(p string) func(*sweep, *Rng) string { return func(*sweep, *Rng) string { return p } }
 
 func sweepRoutes() []sweepRoute {
-	txBody := func(s *sweep, r *Rng) *J {
+	txBody := func(s *sweep, r *Rng) *AJ {
 		if r.Chance(35) {
 			return s.validScriptTx(r, false)
 		}
 		return s.validTx(r)
 	}
-	metaBody := func(s *sweep, r *Rng) *J { return jobj("k2", jstr(Pick(r, genStrings))) }
-	bulkBody := func(s *sweep, r *Rng) *J { return genBulkJ(r) }
+	metaBody := func(s *sweep, r *Rng) *AJ { return ajobj("k2", ajstr(Pick(r, genStrings))) }
+	bulkBody := func(s *sweep, r *Rng) *AJ { return genBulkJ(r) }
 	v2 := "/v2/l1"
 	v1 := "/l1"
 	return []sweepRoute{
@@ -340,12 +341,14 @@ func sweepRoutes() []sweepRoute {
 		{name: "v2.updateLedgerMetadata", method: "PUT", path: constPath(v2 + "/metadata"), body: metaBody},
 		{name: "v2.listSchemas", method: "GET", path: constPath(v2 + "/schemas"), list: true},
 		{name: "v2.readSchema", method: "GET", path: constPath(v2 + "/schemas/v9")},
-		{name: "v2.insertSchema", method: "POST", path: constPath(v2 + "/schemas/vbad"), body: func(s *sweep, r *Rng) *J { return jobj("chart", jobj("users", jobj("$id", jobj())), "transactions", jobj()) }, write: true},
-		{name: "v2.runQuery", method: "POST", path: constPath(v2 + "/queries/q1/run"), body: func(s *sweep, r *Rng) *J { return jobj("vars", jobj("a", jstr("b"))) }, list: true},
-		{name: "v2.importLogs", method: "POST", path: constPath(v2 + "/logs/import"), body: func(s *sweep, r *Rng) *J { return jobj("id", jint(1)) }, write: true},
+		{name: "v2.insertSchema", method: "POST", path: constPath(v2 + "/schemas/vbad"), body: func(s *sweep, r *Rng) *AJ {
+			return ajobj("chart", ajobj("users", ajobj("$id", ajobj())), "transactions", ajobj())
+		}, write: true},
+		{name: "v2.runQuery", method: "POST", path: constPath(v2 + "/queries/q1/run"), body: func(s *sweep, r *Rng) *AJ { return ajobj("vars", ajobj("a", ajstr("b"))) }, list: true},
+		{name: "v2.importLogs", method: "POST", path: constPath(v2 + "/logs/import"), body: func(s *sweep, r *Rng) *AJ { return ajobj("id", jint(1)) }, write: true},
 		{name: "v2.exportLogs", method: "POST", path: constPath(v2 + "/logs/export")},
-		{name: "v2.createLedger", method: "POST", path: constPath("/v2/l1"), body: func(s *sweep, r *Rng) *J { return jobj("metadata", jobj("a", jstr("b"))) }},
-		{name: "v1.createTransaction", method: "POST", path: constPath(v1 + "/transactions"), body: func(s *sweep, r *Rng) *J {
+		{name: "v2.createLedger", method: "POST", path: constPath("/v2/l1"), body: func(s *sweep, r *Rng) *AJ { return ajobj("metadata", ajobj("a", ajstr("b"))) }},
+		{name: "v1.createTransaction", method: "POST", path: constPath(v1 + "/transactions"), body: func(s *sweep, r *Rng) *AJ {
 			if r.Chance(35) {
 				return s.validScriptTx(r, true)
 			}
@@ -382,7 +385,7 @@ func (s *sweep) gen(r *Rng, rt sweepRoute) httpReq {
 		qs, _ := url.ParseQuery(rt.query)
 		query = qs
 	}
-	var body *J
+	var body *AJ
 	if rt.body != nil {
 		body = rt.body(s, r)
 	}
@@ -434,22 +437,22 @@ func (s *sweep) gen(r *Rng, rt sweepRoute) httpReq {
 		q.Hdr["Content-Type"] = Pick(r, sweepContentTypes)
 	case "v1_vars_type":
 		body = s.validScriptTx(r, true)
-		body.get("script").get("vars").O[1].V = Pick(r, []*J{jint(1), jbool(true), jarr(jint(1)), jdec(big.NewInt(15), -1), jbig(pow(2, 64, 1))})
+		body.get("script").get("vars").O[1].V = Pick(r, []*AJ{jint(1), ajbool(true), ajarr(jint(1)), jdec(big.NewInt(15), -1), jbig(pow(2, 64, 1))})
 		q.MustReject = true
 	case "invalid_posting":
 		body = s.validTx(r)
 		p := body.get("postings").A[0]
 		switch r.Intn(5) {
 		case 0:
-			p.O[0].V = jstr(Pick(r, sweepBadAddresses[:8]))
+			p.O[0].V = ajstr(Pick(r, sweepBadAddresses[:8]))
 		case 1:
-			p.O[1].V = jstr(Pick(r, sweepBadAddresses[:8]))
+			p.O[1].V = ajstr(Pick(r, sweepBadAddresses[:8]))
 		case 2:
-			p.O[2].V = jstr(Pick(r, []string{"usd", "", "USD/", "1USD", "USD/1234567", "U S"}))
+			p.O[2].V = ajstr(Pick(r, []string{"usd", "", "USD/", "1USD", "USD/1234567", "U S"}))
 		case 3:
 			p.O[3].V = jint(-5)
 		default:
-			p.O[3].V = jstr("12")
+			p.O[3].V = ajstr("12")
 		}
 		q.MustReject = true
 	case "bad_cursor":
@@ -512,7 +515,7 @@ func (s *sweep) gen(r *Rng, rt sweepRoute) httpReq {
 type amtPath struct {
 	name string
 	v1   bool
-	body func(n *big.Int, dst string) *J
+	body func(n *big.Int, dst string) *AJ
 	// lossy: known to go through float64 (the monitor is the same; only the tag differs)
 	floatForm bool
 }
@@ -521,29 +524,29 @@ const amtScript = "vars {\n account $dst\n monetary $m\n}\nsend $m (\n source = 
 const amtScriptNumber = "vars {\n account $dst\n number $n\n}\nsend [USD $n] (\n source = @world\n destination = $dst\n)"
 
 func amtPaths() []amtPath {
-	post := func(n *big.Int, dst string) *J {
-		return jobj("postings", jarr(jobj("source", jstr("world"), "destination", jstr(dst), "asset", jstr("USD"), "amount", jbig(n))))
+	post := func(n *big.Int, dst string) *AJ {
+		return ajobj("postings", ajarr(ajobj("source", ajstr("world"), "destination", ajstr(dst), "asset", ajstr("USD"), "amount", jbig(n))))
 	}
 	return []amtPath{
 		{name: "v2.postings", body: post},
 		{name: "v1.postings", v1: true, body: post},
-		{name: "v2.script.var-string", body: func(n *big.Int, dst string) *J {
-			return jobj("script", jobj("plain", jstr(amtScript), "vars", jobj("dst", jstr(dst), "m", jstr("USD "+n.String()))))
+		{name: "v2.script.var-string", body: func(n *big.Int, dst string) *AJ {
+			return ajobj("script", ajobj("plain", ajstr(amtScript), "vars", ajobj("dst", ajstr(dst), "m", ajstr("USD "+n.String()))))
 		}},
-		{name: "v2.script.monetary-amount-string", body: func(n *big.Int, dst string) *J {
-			return jobj("script", jobj("plain", jstr(amtScript), "vars", jobj("dst", jstr(dst), "m", jobj("asset", jstr("USD"), "amount", jstr(n.String())))))
+		{name: "v2.script.monetary-amount-string", body: func(n *big.Int, dst string) *AJ {
+			return ajobj("script", ajobj("plain", ajstr(amtScript), "vars", ajobj("dst", ajstr(dst), "m", ajobj("asset", ajstr("USD"), "amount", ajstr(n.String())))))
 		}},
-		{name: "v2.script.monetary-amount-number", floatForm: true, body: func(n *big.Int, dst string) *J {
-			return jobj("script", jobj("plain", jstr(amtScript), "vars", jobj("dst", jstr(dst), "m", jobj("asset", jstr("USD"), "amount", jbig(n)))))
+		{name: "v2.script.monetary-amount-number", floatForm: true, body: func(n *big.Int, dst string) *AJ {
+			return ajobj("script", ajobj("plain", ajstr(amtScript), "vars", ajobj("dst", ajstr(dst), "m", ajobj("asset", ajstr("USD"), "amount", jbig(n)))))
 		}},
-		{name: "v1.script.var-string", v1: true, body: func(n *big.Int, dst string) *J {
-			return jobj("script", jobj("plain", jstr(amtScript), "vars", jobj("dst", jstr(dst), "m", jstr("USD "+n.String()))))
+		{name: "v1.script.var-string", v1: true, body: func(n *big.Int, dst string) *AJ {
+			return ajobj("script", ajobj("plain", ajstr(amtScript), "vars", ajobj("dst", ajstr(dst), "m", ajstr("USD "+n.String()))))
 		}},
-		{name: "v1.script.monetary-amount-number", v1: true, body: func(n *big.Int, dst string) *J {
-			return jobj("script", jobj("plain", jstr(amtScript), "vars", jobj("dst", jstr(dst), "m", jobj("asset", jstr("USD"), "amount", jbig(n)))))
+		{name: "v1.script.monetary-amount-number", v1: true, body: func(n *big.Int, dst string) *AJ {
+			return ajobj("script", ajobj("plain", ajstr(amtScript), "vars", ajobj("dst", ajstr(dst), "m", ajobj("asset", ajstr("USD"), "amount", jbig(n)))))
 		}},
-		{name: "v2.bulk.postings", body: func(n *big.Int, dst string) *J {
-			return jarr(jobj("action", jstr("CREATE_TRANSACTION"), "data", post(n, dst)))
+		{name: "v2.bulk.postings", body: func(n *big.Int, dst string) *AJ {
+			return ajarr(ajobj("action", ajstr("CREATE_TRANSACTION"), "data", post(n, dst)))
 		}},
 	}
 }
